@@ -267,6 +267,40 @@ func init() {
 				}
 			}
 		}
+		// many files per invocation in a process with few resources: 150 files while at most 40 may be open at a time (a
+		// batch run under a service manager's descriptor limit) - every file still gets its result object
+		if len(certs) >= 10 {
+			var paths []string
+			var wants []string
+			for i := 0; i < 150; i++ {
+				cc := certs[i%len(certs)]
+				p := filepath.Join(tmp, fmt.Sprintf("many-%03d.der", i))
+				os.WriteFile(p, cc.DER, 0o600)
+				paths = append(paths, p)
+				wants = append(wants, libJSON(zlint.LintCertificate(cc.Cert)))
+			}
+			script := "ulimit -n 40 && exec \"$0\" \"$@\""
+			r := runCLI("/bin/sh", append([]string{"-c", script, bin}, paths...), nil)
+			invocations++
+			lines := strings.Split(strings.TrimSuffix(r.stdout, "\n"), "\n")
+			bad := ""
+			if r.code != 0 || len(lines) != len(paths) {
+				bad = fmt.Sprintf("exit %d with %d result objects for %d parseable files (stderr: %.200s)", r.code, len(lines), len(paths), r.stderr)
+			} else {
+				for i := range wants {
+					if ok, _ := equalResults(lines[i], wants[i], map[string]bool{"e_key_usage_and_extended_key_usage_inconsistent": true, "e_ext_duplicate_extension": true}); !ok {
+						bad = fmt.Sprintf("the result object of file %d differs from the library's", i)
+						break
+					}
+				}
+			}
+			if bad != "" {
+				out.Violate("C15|many-files-few-descriptors", "150 certificate files in one invocation under `ulimit -n 40`: "+bad, map[string]interface{}{"how": "sh -c 'ulimit -n 40 && exec zlint f1 ... f150'", "files": len(paths)}, "150 result objects, exit 0", bad)
+			}
+			for _, p := range paths {
+				os.Remove(p)
+			}
+		}
 		// several files per invocation + CRL via PEM armour
 		if len(certs) >= 2 && len(corpus.CRLs) > 0 {
 			p1, p2, p3 := filepath.Join(tmp, "m1.pem"), filepath.Join(tmp, "m2.der"), filepath.Join(tmp, "m3.pem")
